@@ -42,6 +42,23 @@ def run(call):
             hh.members_role = [ent.REFERENT if r else ent.CHILD for r in inrole]
             got = hh.value_from_person(vals, ent.REFERENT, default=-1.0)
             exp = [next((v for v, g, r in zip(vals, eid, inrole) if g == k and r), -1.0) for k in range(count)]
+        elif op == "all":
+            bools = numpy.array([v > 0 for v in vals])
+            got = hh.all(bools, role=role)
+            exp = [all(b for b, g, r in zip(bools, eid, inrole) if g == k and (role is None or r)) for k in range(count)]
+            g = [bool(x) for x in got]
+            return {"kind": "return", "value": {"ok": g == exp, "got": g, "expected": exp}}
+        elif op in ("max", "min"):
+            got = getattr(hh, op)(vals, role=role)
+            fn = max if op == "max" else min
+            neutral = float("-inf") if op == "max" else float("inf")
+            exp = []
+            for k in range(count):
+                members = [v for v, g, r in zip(vals, eid, inrole) if g == k and (role is None or r)]
+                exp.append(fn(members) if members else neutral)
+            g = [float(x) for x in got]
+            ok = len(g) == count and all(a == b for a, b in zip(g, exp))
+            return {"kind": "return", "value": {"ok": ok, "got": [repr(x) for x in g], "expected": [repr(x) for x in exp]}}
         elif op == "value_nth_person":
             n = call["n"]
             got = hh.value_nth_person(n, vals, default=-1.0)
